@@ -382,10 +382,18 @@ def inject(w, ctx, kind, thunk, info):
         raise
     ctx.counters['post_fault_checks'] += 1
     now = w.bdd.configure()['reordering']
+    ctx.counters['reordering_setting_checks'] += 1
+    if reordering and not now:
+        # "subsequent operations behave normally": a manager on which
+        # the user enabled dynamic reordering must not have it switched
+        # off by a call that was refused
+        raise Violation(site, 'dynamic-reordering-switched-off-by-failed-call',
+                        dict(info, exc=exc))
     if now != reordering:
-        # (not judged: the flag may stay off when the retry after a
-        # served reordering request is what raised)
-        ctx.counters['reordering_flag_changed_after_failure'] += 1
+        # off -> on is recorded only: `_copy.load_json(load_order=True)`
+        # restores the setting from the dict that `configure` returned,
+        # which always enables; no statement covers the setting as such
+        ctx.counters['reordering_switched_on_by_failed_call_observed'] += 1
         w.bdd.configure(reordering=reordering)
     return exc
 
